@@ -19,6 +19,8 @@ func init() {
 }
 
 func runC06(c *Check) {
+	LostReceiverStores(c, "C06.CFG", "message")
+	DefaultsApplied(c, "C06.CFG", "message")
 	P := "C06"
 	r := c.routerRoles2(P)
 	if r == nil {
@@ -66,7 +68,7 @@ func c06WaitOrder(c *Check, P string, r *RouterRoles2) {
 	}
 	c.Floor(P+".O1", "wait for in-flight invocations", n, 1)
 	// both waits are part of what Close waits for: the wait helper's family contains them
-	fam := WithAnon(r.WaitFn)
+	fam := WithStarted(r.WaitFn)
 	nl, nr := 0, 0
 	for _, f := range fam {
 		nl += len(r.waitsOn(f, r.WLoop))
@@ -119,6 +121,18 @@ func c06CloseResult(c *Check, P string, r *RouterRoles2) {
 	waits := Callers([]*ssa.Function{Cl}, r.WaitFn)
 	if !c.Floor(P+".O3", "call of the wait helper in Close", len(waits), 1) {
 		return
+	}
+	// no handler is started while Close waits: the lock RunHandlers starts handlers under is held from before the
+	// closing signal until after the wait ("none will start afterwards")
+	if startLock := r.handlerStartLockID(); c.Floor(P+".O3", "lock held by RunHandlers when it starts a handler", b2i(startLock != ""), 1) {
+		for _, w := range waits {
+			held := r.LA.Held(w)
+			c.Report(held[startLock] == 'W', P+".O3", "NO-START-WHILE-CLOSE-WAITS", Cl, w.Pos(), "wait for the handlers in Close", "Close waits for the handlers with the handlers lock held: a RunHandlers call that overlaps Close cannot start a handler whose invocations Close no longer waits for", "held: "+held.String())
+		}
+		for _, cs := range CloseSites(Cl, func(v ssa.Value) bool { return AllOrigins(v, IsFieldLoad(r.ClosingCh)) }) {
+			held := r.LA.Held(cs)
+			c.Report(held[startLock] == 'W', P+".O3", "NO-START-WHILE-CLOSE-WAITS", Cl, cs.Pos(), "close(closing signal)", "the closing signal is raised with the handlers lock held (the same critical section as the wait)", "held: "+held.String())
+		}
 	}
 	_, notTimedOut := r.waitVerdictEdges(Cl, waits)
 	closedTrue, _ := BoolEdges(Cl, func(v ssa.Value) bool { return AllOrigins(v, IsFieldLoad(r.ClosedF)) })
